@@ -373,13 +373,16 @@ func ruleOverride(c *Ctx) {
 			continue
 		}
 		usesSentinel := false
-		allInstrs(gf, func(in ssa.Instruction) {
-			if u, ok := in.(*ssa.UnOp); ok && u.Op == token.MUL {
-				if gl, ok := u.X.(*ssa.Global); ok && gl.Name() == "ErrOK" {
-					usesSentinel = true
+		// (in the getter or in a helper it answers through)
+		for _, rf := range c.regionFuncChainsList(gf) {
+			allInstrs(rf, func(in ssa.Instruction) {
+				if u, ok := in.(*ssa.UnOp); ok && u.Op == token.MUL {
+					if gl, ok := u.X.(*ssa.Global); ok && gl.Name() == "ErrOK" {
+						usesSentinel = true
+					}
 				}
-			}
-		})
+			})
+		}
 		c.check(usesSentinel, "cmd."+g+"|sentinel", c.pos(gf.Pos()), fname(gf), "empty/zero flag value -> `not given` sentinel", "cmd."+g+" no longer returns the ErrOK sentinel for an unset flag")
 		// ... and for nothing else: folded with the flag's value bound to probes, `not given` comes back for the zero value
 		// only (a value that merely equals some default is a value the user gave)
@@ -487,7 +490,11 @@ func ruleOverride(c *Ctx) {
 			}
 			switch {
 			case undecided != "":
-				c.undec("cmd.getMeter|as-written", c.pos(gf.Pos()), fname(gf), undecided)
+				// not decided by folding (a validator the folder cannot run, say): the shape then - the flag's text goes through
+				// the reader of the document's own meter field and its two numbers, as they are, into op.NewMeter
+				facts := c.facts(gf)
+				shape := hasFact(facts, "call util.ParseRat(github.com/spf13/pflag.FlagSet.GetString(") && hasFact(facts, "call op.NewMeter(util.ParseRat(", ")#0.Num,util.ParseRat(", ")#0.Denom)")
+				c.check(shape, "cmd.getMeter|as-written", c.pos(gf.Pos()), fname(gf), "--meter is read by util.ParseRat and its numerator and denominator are handed to op.NewMeter as they are ("+undecided+")", "cmd.getMeter: "+undecided+", and the flag's text is not read by util.ParseRat with both numbers handed to op.NewMeter as they are: a reader that reduces the fraction turns 6/8 into 3/4")
 			default:
 				c.check(problem == "", "cmd.getMeter|as-written", c.pos(gf.Pos()), fname(gf), "numerator and denominator of --meter are taken as written (6/8, 2/2, 12/8, 4/4, 3/4, 7/16 folded)", "cmd.getMeter: "+problem)
 			}
